@@ -1751,6 +1751,16 @@ class VM:
             if t is ast.Add and isinstance(a, (ms.SStr, str)) and isinstance(b, (ms.SStr, str)):
                 return ms.mk_str(ms.str_atoms(a) + ms.str_atoms(b))
             raise Unsupported('str binop ' + t.__name__)
+        if t in (ast.Add, ast.Sub) and ((isinstance(a, SInt) and isinstance(b, float)) or (isinstance(b, SInt) and isinstance(a, float))):
+            # int +/- a float constant with an integral value, all magnitudes below 2**53: the float result is exact and compares like the
+            # integer (the symbolic side must be bounded accordingly)
+            fl, sy = (b, a) if isinstance(b, float) else (a, b)
+            lo, hi = z3.bounds(sy.e)
+            if fl == int(fl) and abs(fl) < 2 ** 52 and lo is not None and hi is not None and -2 ** 52 < lo and hi < 2 ** 52:
+                if isinstance(b, float):
+                    b = int(b)
+                else:
+                    a = int(a)
         if t is ast.Div and isinstance(a, (SInt, ms.SDyadic)):
             r = ms.dyadic_div(self, a, b)
             if r is not None:
